@@ -1,10 +1,11 @@
 import Pacti.Driver.Wire
 import Pacti.Driver.OpsPoly
+import Pacti.Driver.OpsSym
 open Lean Wire
 
 /-- every op family registers one handler here -/
 def handlers : List (String → Json → Option (Except String Json)) :=
-  [handlePoly]
+  [handlePoly, OpsSym.handleSym]
 
 def handle (j : Json) : Except String Json := do
   let op ← (← j.getObjVal? "op").getStr?
